@@ -312,7 +312,11 @@ class Gen:
         return {"op": "unregtask", "name": self.draw(st.sampled_from(names))}
 
     def mk_maint(self):
-        return {"op": self.draw(st.sampled_from(["verify", "cleanup", "refresh", "clone"]))}
+        kinds = ["verify", "cleanup", "refresh", "clone"]
+        if self.model.defs and all(loadable(a) for a in self.model.defs.values()):
+            # load(dump()): every definition is unregistered and registered again from its printed form
+            kinds += ["loadself", "loadself"]
+        return {"op": self.draw(st.sampled_from(kinds))}
 
     # ---- main loop
     def step(self, kinds=None):
@@ -373,6 +377,20 @@ class Gen:
     def case(self):
         return {"init": {k: E.enc(v) for k, v in self.init.items()}, "ops": self.ops,
                 "excluded": dict(self.excluded)}
+
+
+def loadable(ast):
+    """can the printed form of this definition be evaluated back? (C11: K2 math builtins, K3 _eq/_neq and captured
+    non-finite literals cannot)"""
+    t = ast[0]
+    if t == "lit":
+        v = E.dec(ast[1])
+        return not (isinstance(v, float) and (v != v or v in (float("inf"), float("-inf"))))
+    if t in ("eq", "neq"):
+        return False
+    if t == "bi" and ast[1] in ("floor", "ceil", "trunc"):
+        return False
+    return all(loadable(x) for x in E.subterms(ast))
 
 
 def histories(opts=None):
